@@ -73,6 +73,29 @@ theorem writes_length (bits : Nat) (ps : List Bytes) :
     (ps.foldl Win.write (Win.init bits)).dict.length = min ps.flatten.length (2 ^ bits) := by
   rw [writes_spec]; simp [Nat.min_comm]
 
+/-- **C17, chunking is irrelevant.** The window depends only on the byte stream written, not on how
+it was cut into `Write` calls: a message written in one piece, frame by frame, or byte by byte
+leaves the same history (this is what lets the two endpoints of C02 agree although one side
+writes whole payloads and the other inflated pieces). -/
+theorem writes_chunking_irrelevant (bits : Nat) (ps qs : List Bytes) (h : ps.flatten = qs.flatten) :
+    (ps.foldl Win.write (Win.init bits)).dict = (qs.foldl Win.write (Win.init bits)).dict := by
+  rw [writes_spec, writes_spec, h]
+
+/-- the same from any state satisfying the invariant: two writes equal one write of the concatenation -/
+theorem write_write_eq_write_append (w : Win) (p q : Bytes) (he : w.enabled = true)
+    (hinv : w.dict.length ≤ w.size) :
+    ((w.write p).write q).dict = (w.write (p ++ q)).dict := by
+  have h2 := writes_spec_from w [p, q] he hinv
+  have h1 := writes_spec_from w [p ++ q] he hinv
+  simp only [List.foldl_cons, List.foldl_nil] at h1 h2
+  rw [h2.1, h1.1]; simp
+
+/-- **C17, old bytes fall out.** Once at least `2^bits` bytes have been written after some prefix,
+nothing of that prefix (nor of the initial contents) is left in the window. -/
+theorem writes_forget (bits : Nat) (ps qs : List Bytes) (h : 2 ^ bits ≤ qs.flatten.length) :
+    ((ps ++ qs).foldl Win.write (Win.init bits)).dict = (qs.foldl Win.write (Win.init bits)).dict := by
+  rw [writes_spec, writes_spec, List.flatten_append, lastN_append_of_le _ _ _ h]
+
 /-- **C17, disabled window.** A window that was never initialised stays empty under any writes. -/
 theorem disabled_stays_empty (ps : List Bytes) :
     (ps.foldl Win.write Win.disabled) = Win.disabled := by
@@ -84,5 +107,7 @@ theorem disabled_stays_empty (ps : List Bytes) :
 example : ([[1,2,3],[4,5,6],[7,8,9,10,11]].foldl Win.write (Win.init 3)).dict = [4,5,6,7,8,9,10,11] := by decide
 example : ([[1,2,3],[4,5,6],[7,8,9,10,11,12,13,14,15,16,17]].foldl Win.write (Win.init 3)).dict = [10,11,12,13,14,15,16,17] := by decide
 example : ([[1,2,3,4,5,6,7,8],[9]].foldl Win.write (Win.init 3)).dict = [2,3,4,5,6,7,8,9] := by decide
+-- `writes_forget`'s hypothesis is met by a reachable history
+example : 2 ^ 3 ≤ ([[1,2,3,4,5],[6,7,8,9]] : List Bytes).flatten.length := by decide
 
 end Win
